@@ -61,6 +61,24 @@ func propC16(r *Run, w *World) {
 			continue
 		}
 		seen[name] = true
+		// one request per call: every path of the setter reaches set() exactly once (an early
+		// return - a "validation" of the argument, a cached value - sends nothing)
+		if ps, complete := Paths(fn, PathOpts{Cap: 2000}); complete {
+			okOnce := true
+			why := ""
+			for _, p := range ps {
+				if p.Ret() == nil {
+					continue
+				}
+				if n := len(p.Calls(x.set)); n != 1 {
+					okOnce = false
+					why = fmt.Sprintf("a path calls set() %d times: %s", n, compactPath(p))
+				}
+			}
+			r.Check(okOnce, "setter "+name+" sends once on every path", fn.Pos(), "", name+" does not send exactly one AUDIT_SET on every path: "+why)
+		} else {
+			r.Undecided("setter "+name+" paths", fn.Pos(), "path cap exceeded")
+		}
 		sc := s.Instr.(ssa.CallInstruction).Common()
 		stAddr := ""
 		if ld, isLd := sc.Args[1].(*ssa.UnOp); isLd {
@@ -170,8 +188,40 @@ func propC16(r *Run, w *World) {
 		r.Check(ok, "GetStatusAsync envelope", x.getStatusAsync.Pos(), "AUDIT_GET, REQUEST (+ACK iff requireACK), no data", fmt.Sprintf("GetStatusAsync sends %v", m))
 	}
 
+	// set() itself: nothing returns before the request has been handed to Send (waiting for, or
+	// reporting, something else first would make a setter send nothing)
+	{
+		ps, complete := Paths(x.set, PathOpts{Cap: 4000})
+		if !complete {
+			r.Undecided("set paths", x.set.Pos(), "path cap exceeded")
+		}
+		okSend := true
+		why := ""
+		nP := 0
+		for _, p := range ps {
+			if p.Ret() == nil {
+				continue
+			}
+			nP++
+			if n := len(p.CallsNamed("invoke:libaudit.NetlinkSendReceiver.Send")); n != 1 {
+				okSend = false
+				why = fmt.Sprintf("%d sends on: %s", n, compactPath(p))
+			}
+		}
+		r.Check(okSend && nP > 0, "set() sends exactly once on every path", x.set.Pos(), "", "set() can return without having sent its request, or send it more than once: "+why)
+	}
+
+	// R6: the reply GetStatus decodes is the one that follows a verified acknowledgement
+	x.ackVerified("C16.R6", x.getStatus)
+
+	statusDecode(r, w, x, "C16.R5")
+}
+
+// statusDecode: the decoding of a status reply (C16.R5; "data-returning calls return exactly what
+// the kernel sent" rests on it as well: C08.R9).
+func statusDecode(r *Run, w *World, x *client, ruleID string) {
 	// R5 decode
-	r.Rule("C16.R5", "decode: FromWireFormat returns io.ErrUnexpectedEOF under len(buf) < MinSizeofAuditStatus, zeroes *s under len(buf) < sizeofAuditStatus, and moves bytes only with copy into the struct-sized view; toWireFormat returns the view of a private copy", 4)
+	r.Rule(ruleID, "decode: FromWireFormat returns io.ErrUnexpectedEOF under len(buf) < MinSizeofAuditStatus, zeroes *s under len(buf) < sizeofAuditStatus, and moves bytes only with copy into the struct-sized view; toWireFormat returns the view of a private copy", 4)
 	minSz, _, _ := w.constUint("libaudit", "MinSizeofAuditStatus")
 	fullSz, _, _ := w.constUint("libaudit", "sizeofAuditStatus")
 	{
